@@ -91,6 +91,19 @@ class ContinueSig(Exception):
     pass
 
 
+def _has_own_yield(fnode) -> bool:
+    """Does the function itself (not a function nested in it) yield?"""
+    stack = list(fnode.body) if isinstance(fnode.body, list) else [fnode.body]
+    while stack:
+        n = stack.pop()
+        if isinstance(n, (ast.Yield, ast.YieldFrom)):
+            return True
+        if isinstance(n, (ast.FunctionDef, ast.AsyncFunctionDef, ast.Lambda, ast.ClassDef)):
+            continue
+        stack.extend(ast.iter_child_nodes(n))
+    return False
+
+
 class Frame:
     def __init__(self, fi: Optional[FuncInfo], module, cls, env):
         self.fi = fi
@@ -98,6 +111,8 @@ class Frame:
         self.cls = cls
         self.env: Dict[str, V] = env
         self.cur_exc: Optional[ExcV] = None
+        self.closure: Optional["Frame"] = None     # defining frame of a nested function
+        self.nonlocals: set = set()
 
 
 _BUILTIN_EXC = {n for n in dir(builtins)
@@ -148,7 +163,7 @@ class Interp:
         raise Unsupported(f"{loc}unsupported construct {why}: {src_of(node)[:120] if isinstance(node, ast.AST) else node}")
 
     # ------------------------------------------------------------ calls
-    def call_function(self, fi: FuncInfo, args: List[V], kwargs: Dict[str, V] = None, node=None) -> V:
+    def call_function(self, fi: FuncInfo, args: List[V], kwargs: Dict[str, V] = None, node=None, closure=None) -> V:
         kwargs = dict(kwargs or {})
         if self.depth >= self.max_depth:
             raise Unsupported(f"inlining bound exceeded at {fi.qualname}")
@@ -159,13 +174,16 @@ class Interp:
         defaults = [None] * (len(params) - len(a.defaults)) + list(a.defaults)
         args = list(args)
         frame = Frame(fi, fi.module, fi.cls, env)
+        frame.closure = closure
         for i, p in enumerate(params):
             if i < len(args):
                 env[p] = args[i]
             elif p in kwargs:
                 env[p] = kwargs.pop(p)
             elif defaults[i] is not None:
-                self.frames.append(Frame(fi, fi.module, fi.cls, {}))
+                df = Frame(fi, fi.module, fi.cls, {})
+                df.closure = closure
+                self.frames.append(df)
                 try:
                     env[p] = self.eval(defaults[i])
                 finally:
@@ -197,7 +215,7 @@ class Interp:
         try:
             if isinstance(fnode, ast.Lambda):
                 return self.eval(fnode.body)
-            is_gen = any(isinstance(n, (ast.Yield, ast.YieldFrom)) for n in ast.walk(fnode))
+            is_gen = _has_own_yield(fnode)
             if is_gen:
                 frame.yields = []
             try:
@@ -258,11 +276,24 @@ class Interp:
 
     def st_AugAssign(self, st):
         cur = self.eval(_load(st.target))
+        if isinstance(cur, ListV) and cur.items is not None and isinstance(st.op, ast.Add):
+            seq = self.models.iterate(self.eval(st.value), st)
+            if seq is None:
+                self.unsupported(st, "list += opaque")
+            cur.items.extend(seq)       # in place: aliases see it
+            return
         v = self.binop(type(st.op), cur, self.eval(st.value), st)
         self.assign(st.target, v, aug=True)
 
     def assign(self, target, v: V, aug=False):
         if isinstance(target, ast.Name):
+            if target.id in self.frame.nonlocals:
+                fr = self.frame.closure
+                while fr is not None:
+                    if target.id in fr.env:
+                        fr.env[target.id] = v
+                        return
+                    fr = fr.closure
             self.frame.env[target.id] = v
         elif isinstance(target, (ast.Tuple, ast.List)) and any(isinstance(e, ast.Starred) for e in target.elts):
             k = [i for i, e in enumerate(target.elts) if isinstance(e, ast.Starred)]
@@ -417,7 +448,9 @@ class Interp:
 
     def st_FunctionDef(self, st):
         fi = FuncInfo(st.name, self.frame.module, self.frame.cls, st, "function")
-        self.frame.env[st.name] = PyFuncV(fi)
+        f = PyFuncV(fi)
+        f.closure = self.frame
+        self.frame.env[st.name] = f
 
     def st_Delete(self, st):
         for t in st.targets:
@@ -429,6 +462,17 @@ class Interp:
                 if isinstance(obj, ListV) and obj.items is None and isinstance(key, Num):
                     # `del l[i]` is `l.pop(i)` without the result
                     self.models.list_attr(obj, "pop", t).fn([key], {}, t)
+                elif type(obj).__name__ == "DictV" and getattr(obj, "rate_table", None) is None:
+                    self.st.effects.append(("delitem", obj, key, self.models.where(t)))
+                    if self.models.dict_remove(obj, key, t) is None:
+                        self.raise_("KeyError", t)
+                elif isinstance(obj, ListV) and obj.items is not None and isinstance(key, Num) and \
+                        self.st.norm(key.rf).is_const():
+                    self.st.effects.append(("delitem", obj, key, self.models.where(t)))
+                    try:
+                        del obj.items[int(self.st.norm(key.rf).const_value())]
+                    except IndexError:
+                        self.raise_("IndexError", t)
                 else:
                     self.st.effects.append(("delitem", obj, key, self.models.where(t)))
             elif isinstance(t, ast.Attribute):
@@ -437,11 +481,83 @@ class Interp:
             else:
                 self.unsupported(st, "del")
 
+    def st_Match(self, st):
+        subject = self.eval(st.subject)
+        for case in st.cases:
+            saved = dict(self.frame.env)
+            if self.match_pattern(case.pattern, subject, case) and \
+                    (case.guard is None or self.truth(self.eval(case.guard), case.guard)):
+                self.exec_block(case.body)
+                return
+            self.frame.env.clear()
+            self.frame.env.update(saved)
+
+    def match_pattern(self, pat, v, node) -> bool:
+        m = self.models
+        if isinstance(pat, ast.MatchValue):
+            return self.truth(m.compare(ast.Eq, v, self.eval(pat.value), pat), pat)
+        if isinstance(pat, ast.MatchSingleton):
+            const = NONE if pat.value is None else BoolV(pat.value)
+            return m.is_(v, const, pat) if pat.value is None else (isinstance(v, BoolV) and v.val == pat.value)
+        if isinstance(pat, ast.MatchAs):
+            if pat.pattern is not None and not self.match_pattern(pat.pattern, v, node):
+                return False
+            if pat.name is not None:
+                self.frame.env[pat.name] = v
+            return True
+        if isinstance(pat, ast.MatchOr):
+            return any(self.match_pattern(p, v, node) for p in pat.patterns)
+        if isinstance(pat, ast.MatchSequence):
+            if isinstance(v, StrV):
+                return False
+            seq = m.iterate(v, pat) if isinstance(v, (TupleV, ListV)) else None
+            if seq is None:
+                if isinstance(v, (TupleV, ListV)):
+                    self.unsupported(pat, "sequence pattern on an opaque sequence")
+                return False
+            stars = [i for i, p in enumerate(pat.patterns) if isinstance(p, ast.MatchStar)]
+            if not stars:
+                if len(seq) != len(pat.patterns):
+                    return False
+                return all(self.match_pattern(p, x, node) for p, x in zip(pat.patterns, seq))
+            i = stars[0]
+            na = len(pat.patterns) - i - 1
+            if len(seq) < len(pat.patterns) - 1:
+                return False
+            ok = all(self.match_pattern(p, x, node) for p, x in zip(pat.patterns[:i], seq[:i])) and \
+                all(self.match_pattern(p, x, node) for p, x in zip(pat.patterns[i + 1:], seq[len(seq) - na:]))
+            if ok and pat.patterns[i].name is not None:
+                self.frame.env[pat.patterns[i].name] = ListV(list(seq[i:len(seq) - na]))
+            return ok
+        if isinstance(pat, ast.MatchClass):
+            cls = self.eval(pat.cls)
+            if not m.isinstance_(v, cls, pat):
+                return False
+            if pat.patterns:
+                # positional sub-patterns: builtin types bind the subject itself; classes need __match_args__
+                if len(pat.patterns) == 1 and isinstance(cls, TypeV) and cls.ci is None:
+                    return self.match_pattern(pat.patterns[0], v, node)
+                self.unsupported(pat, "positional class pattern")
+            for name, p in zip(pat.kwd_attrs, pat.kwd_patterns):
+                if not self.match_pattern(p, m.get_attr(v, name, pat), node):
+                    return False
+            return True
+        self.unsupported(pat, "match pattern")
+
     def st_Global(self, st):
         pass
 
     def st_Nonlocal(self, st):
-        pass
+        self.frame.nonlocals.update(st.names)
+
+    def st_Import(self, st):
+        for a in st.names:
+            name = a.asname or a.name.split(".")[0]
+            self.frame.env[name] = ModuleV(a.name if a.asname else a.name.split(".")[0])
+
+    def st_ImportFrom(self, st):
+        for a in st.names:
+            self.frame.env[a.asname or a.name] = self.models.external(st.module or "", a.name, a.asname or a.name, st)
 
     def st_With(self, st):
         for item in st.items:
@@ -474,16 +590,30 @@ class Interp:
 
     def ex_Name(self, node):
         name = node.id
-        for fr in (self.frame,):
+        fr = self.frame
+        while fr is not None:
             if name in fr.env:
                 return fr.env[name]
+            fr = fr.closure
         return self.models.global_name(self.frame.module, name, node)
 
+    def _display(self, elts):
+        out = []
+        for e in elts:
+            if isinstance(e, ast.Starred):
+                seq = self.models.iterate(self.eval(e.value), e)
+                if seq is None:
+                    self.unsupported(e, "starred opaque value in a display")
+                out.extend(seq)
+            else:
+                out.append(self.eval(e))
+        return out
+
     def ex_Tuple(self, node):
-        return TupleV([self.eval(e) for e in node.elts])
+        return TupleV(self._display(node.elts))
 
     def ex_List(self, node):
-        return ListV([self.eval(e) for e in node.elts])
+        return ListV(self._display(node.elts))
 
     def ex_Dict(self, node):
         from .models import DictV
@@ -528,10 +658,10 @@ class Interp:
     def ex_Subscript(self, node):
         obj = self.eval(node.value)
         if isinstance(node.slice, ast.Slice):
-            if node.slice.step is not None:
-                self.unsupported(node, "slice step")
             lo = self.eval(node.slice.lower) if node.slice.lower else None
             hi = self.eval(node.slice.upper) if node.slice.upper else None
+            if node.slice.step is not None:
+                return self.models.get_slice(obj, lo, hi, node, step=self.eval(node.slice.step))
             return self.models.get_slice(obj, lo, hi, node)
         key = self.eval(node.slice)
         return self.models.get_item(obj, key, node)
@@ -556,7 +686,17 @@ class Interp:
         kwargs = {}
         for kw in node.keywords:
             if kw.arg is None:
-                self.unsupported(node, "**kwargs call")
+                src = self.eval(kw.value)
+                items = None
+                if type(src).__name__ == "DictV":
+                    items = src.items
+                elif isinstance(src, ObjV) and src.ci is None and src.name == "kwargs":
+                    items = [(StrV(k), v) for k, v in src.fields.items()]
+                if items is None or not all(isinstance(k, StrV) and k.const is not None for k, _ in items):
+                    self.unsupported(node, "**kwargs call")
+                for k, v in items:
+                    kwargs[k.const] = v
+                continue
             kwargs[kw.arg] = self.eval(kw.value)
         return self.models.call(fn, args, kwargs, node)
 
